@@ -26,10 +26,53 @@ import common
 KEYS = ['k0', 'k1', 'k2', 'k3', 'k4', 'k5']
 
 
-class Rec(io.StringIO):
-    """the object installed as sys.stdout / sys.stderr while the implementation runs"""
+class Rec(io.TextIOWrapper):
+    """the object installed as sys.stdout / sys.stderr while the implementation runs: an ordinary text stream
+    (same class as the real sys.stdout, so `.buffer`, `.encoding`, `writelines`, `reconfigure` exist) over a
+    BytesIO (no file descriptor: `fileno()` raises UnsupportedOperation)"""
+    def __init__(self):
+        super().__init__(io.BytesIO(), encoding='utf-8', errors='surrogatepass', newline='', write_through=True)
+
+    def getvalue(self):
+        self.flush()
+        return self.buffer.getvalue().decode('utf-8', 'surrogatepass')
+
     def isatty(self):
         return False
+
+
+OP_KINDS = ['write', 'print', 'flush', 'isatty', 'fileno', 'writelines', 'buffer', 'encoding', 'errors', 'reconfigure']
+
+
+def op_kind(w):
+    return w[2] if len(w) > 2 else 'write'
+
+
+def do_op(stream, text, kind):
+    """one stream operation of a generated callable"""
+    if kind == 'write':
+        stream.write(text)
+    elif kind == 'print':
+        print(text, end='', file=stream)
+    elif kind == 'flush':
+        stream.flush()
+    elif kind == 'isatty':
+        stream.isatty()
+    elif kind == 'fileno':
+        stream.fileno()
+    elif kind == 'writelines':
+        stream.writelines([text])
+    elif kind == 'buffer':
+        stream.buffer.write(text.encode('utf-8', 'surrogatepass'))
+        stream.buffer.flush()
+    elif kind == 'encoding':
+        stream.encoding
+    elif kind == 'errors':
+        stream.errors
+    elif kind == 'reconfigure':
+        stream.reconfigure(line_buffering=True)
+    else:
+        raise ValueError(kind)
 
 
 # ----------------------------------------------------------------------------------------------
@@ -169,8 +212,8 @@ def make_callable(spec, log=None, idx=None):
     def body():
         if log is not None:
             log.append(idx)
-        for chan, text in writes:
-            (sys.stdout if chan == 'o' else sys.stderr).write(text)
+        for w in writes:
+            do_op(sys.stdout if w[0] == 'o' else sys.stderr, w[1], op_kind(w))
         if swap in ('stdout', 'both'):
             sys.stdout = io.StringIO()
         if swap in ('stderr', 'both'):
@@ -346,6 +389,20 @@ def io_arg(capture):
 
 
 def run_py(case):
+    obs = _run_py(case)
+    if any(op_kind(w) != 'write' for w in case.get('writes', [])) and not case.get('kwargs_raise'):
+        # the same action at every verbosity: outcome and capture must not depend on it
+        obs['by_v'] = {}
+        for v in (0, 1, 2):
+            c = dict(case, v=v)
+            c.pop('stream_v', None)
+            c.pop('repeat', None)
+            o = _run_py(c)
+            obs['by_v'][str(v)] = {'outcome': o['outcome'], 'out': o['out'], 'err': o['err'], 'O': o['O'], 'E': o['E']}
+    return obs
+
+
+def _run_py(case):
     action, task, exc = _mods()
     fn = make_callable(case)
     if case.get('notask'):
